@@ -67,11 +67,20 @@ class TaskScheduler(object):
         :param tasks: task to wait for
         :return: ``None``
         """
-        while not task.is_computed():
-            self._execute(task)
-            if task.is_computed():
-                break
-            self._continue_with_batch()
+        try:
+            while not task.is_computed():
+                self._execute(task)
+                if task.is_computed():
+                    break
+                self._continue_with_batch()
+        except BaseException:
+            if not self._tasks:
+                # No computation is left on this scheduler, so the batches that are still
+                # pending were scheduled by tasks that have been abandoned: the next
+                # computation must not flush them. (An item that is still wanted schedules
+                # its batch again, or flushes it when asked for its value.)
+                self._batches = set()
+            raise
 
     def _execute(self, root_task):
         """Implements task execution loop.
